@@ -126,12 +126,7 @@ func dischargePrimary(o *Obligation, timeoutS int) {
 		o.Verdict, o.Solver, o.Output, o.Time = v, solvers[0].name, out, t
 		return
 	}
-	v, out, t := runSolver(solvers[0], o.smt(true), timeoutS)
-	o.Time = t
-	o.Verdict, o.Solver, o.Output = v, solvers[0].name, out
-	if v == "sat" {
-		o.Model = out
-	}
+	dischargeHedged(o, timeoutS)
 }
 
 // phase 2 (only for obligations the primary solver did not decide): the other solvers,
@@ -232,7 +227,7 @@ func dischargeAll(obls []*Obligation, timeoutS int, cross bool, workers int) {
 			rest = append(rest, o)
 		}
 	}
-	parallel(rest, 6, func(o *Obligation) { dischargeFallback(o, timeoutS) })
+	_ = rest // undecided obligations already went through every configuration (hedge.go)
 	if cross {
 		parallel(obls, 8, func(o *Obligation) { crossCheck(o, timeoutS) })
 	}
